@@ -20,8 +20,8 @@ func MapGDay(lexicalForm string) (GDay, error) {
 	lexicalForm = xsdutil.WhiteSpaceCollapse(lexicalForm)
 
 	for _, layout := range []string{
-		"02",
-		"02Z07:00",
+		"---02",
+		"---02Z07:00",
 	} {
 		parsed, err := time.Parse(layout, lexicalForm)
 		if err == nil {
